@@ -13,7 +13,7 @@ from . import simfs, world
 def access_key(op: dict[str, Any]) -> list[Any]:
     """What identifies the fault-free way an op reads its text (reference key)."""
     sel = op.get("select")
-    selk = None if sel is None else [sel.get("form"), [list(p) for p in sel["pairs"]]]
+    selk = None if sel is None else [sel.get("form"), [list(p) for p in sel["pairs"]]]  # faults excluded
     if op.get("via") == "path":
         return [op["text"], selk, "path"]
     return [op["text"], selk, "file", op.get("reader") or "stringio", op.get("newline"),
@@ -41,8 +41,13 @@ def do_parse(fs: simfs.SimFS, op: dict[str, Any], data: bytes, name: str,
         fp = simfs.make_reader(kind, data, fs=fs, path=p, encoding=op.get("encoding") or "utf-8",
                                newline=op.get("newline"), tape=tape)
     else:
+        rf = op.get("reader_fault") if faults else None
         fp = simfs.make_reader(kind, data, encoding=op.get("encoding") or "utf-8",
-                               newline=op.get("newline"), chunk=int(tape.get("chunk") or 7))
+                               newline=op.get("newline"), chunk=int(tape.get("chunk") or 7),
+                               fail_at=int(rf["at"]) if rf else None,
+                               fail_exc=rf["exc_obj"] if rf else None)
+        if rf:
+            rf["reader"] = fp
     if selp is None:
         return Chart.from_file(fp)
     return world.with_selection(selp, lambda w: Chart.from_file(fp, want_tracks=w))
